@@ -26,11 +26,11 @@ Fixpoint episode_actions (tr : list tstep) : list nat :=
 
 (* C01: implementation masks inside model masks, done equal; specification holds on the completed episode.
    code 6 = the independent feasibility predicate is false on the implementation's own episode *)
+(* the specification is judged FIRST, on the implementation's own episode: a dropped mask term must end as a concrete
+   replay (code 6), not as a mere model/implementation disagreement *)
 Definition check_C01 (c : cvrp_case) : Z :=
-  let r := check_trace (E:=CVRP f32) (c_inst c) 0 (c_trace c) in
-  if negb (r =? 0) then r
-  else if c_complete c && negb (cvrp_feasibleb (c_inst c) (tol (c_inst c)) (episode_actions (c_trace c))) then 6
-  else 0.
+  if c_complete c && negb (cvrp_feasibleb (c_inst c) (tol (c_inst c)) (episode_actions (c_trace c))) then 6
+  else check_trace (E:=CVRP f32) (c_inst c) 0 (c_trace c).
 
 (* C02: on the implementation's observables, then mask/done equality with the model *)
 Definition check_C02 (c : cvrp_case) : Z :=
@@ -53,16 +53,16 @@ Definition check_C05 (c : cvrp_case) : Z := check_trace (E:=CVRP f32) (c_inst c)
 Definition check_C06 (c : cvrp_case) : Z :=
   let acts := trace_actions (c_trace c) in
   let i := c_inst c in
-  if negb (Bool.eqb (cvrp_checker f32 i acts) (c_checker c)) then 13
-  else if cvrp_feasibleb i 0 acts && negb (c_checker c) then 14
+  if cvrp_feasibleb i 0 acts && negb (c_checker c) then 14
   else if negb (cvrp_feasibleb i (3 * tol i) acts) && c_checker c then 15
+  else if negb (Bool.eqb (cvrp_checker f32 i acts) (c_checker c)) then 13
   else 0.
 
 (* a solution given directly as an action list (hand-built or corrupted), with the implementation's verdict *)
 Definition check_C06_sol (c : cvrp_inst * list nat * bool) : Z :=
   match c with (i, acts, verdict) =>
-    if negb (Bool.eqb (cvrp_checker f32 i acts) verdict) then 13
-    else if cvrp_feasibleb i 0 acts && negb verdict then 14
+    if cvrp_feasibleb i 0 acts && negb verdict then 14
     else if negb (cvrp_feasibleb i (3 * tol i) acts) && verdict then 15
+    else if negb (Bool.eqb (cvrp_checker f32 i acts) verdict) then 13
     else 0
   end.
